@@ -1,17 +1,90 @@
 """C07 — collect(), next() and fast_forward() are the same run; collect(nexts=n) is a prefix.
 
-The run machine is deterministic, so two accepted traces of the same case are the same run: every
-method's trace and final state must be accepted by RunTrace for the same (program, file)."""
+Spec: spec/SameRun.tla - the relation "these recorded executions are one run": every _consider_line call of next() and of
+fast_forward() leaves the state collect() left after the same call (line, returned or not, counters, stop state, validity,
+votes, variables, printouts), the runs have the same number of calls and end in the same final state (and the same delivered
+lines where a method delivers lines); collect(nexts=n) is the base run cut after the call that returned the n-th line, with the
+final state of exactly that moment (no side effect of a later line) and the first n lines. Each generated case (typed programs
+with control, validity and line-rewriting functions over typed files) is run for real with collect(), next(), fast_forward() and
+collect(nexts=1..matches+1); TLC validates the relation. What the run should BE is C01/C03/C04/C13's business: the same traces
+are also validated against the run machine (RunTrace) and the count of rejections is reported in the evidence, but a run that all
+methods agree on is not a C07 violation."""
+import json
+
 from checks import runfam
+from lib import common, runtrace, samerun, scratch
+from lib.tlc import MachineryError
 
 PID = "C07"
-JUDGED = set(runfam.FIELD_OWNER)  # every field: the statement lists lines, variables, counters, validity, stop state, printouts
+METHODS = ("collect", "next", "fast_forward", "nexts")
 
 
 def main(tier):
+    rep = common.Report(PID, tier)
     n = 250 if tier == "quick" else 4000
-    return runfam.run(PID, tier, groups=("core", "control", "validity", "rewrite"), judged=JUDGED, ncases=n,
-                      methods=("collect", "next", "fast_forward", "nexts"), seed_salt=700)
+    seed = common.seed() + 700
+    items = [(seed, i, ("core", "control", "validity", "rewrite"), METHODS, {}) for i in range(n)]
+    results = common.pmap(runfam._work, items, initializer=scratch.enter_scratch)
+    cases, infos, all_traces, oom = [], {}, [], 0
+    for idx, lst in enumerate(results):
+        recs = []
+        for r in lst:
+            if r[0] == "harness":
+                raise MachineryError(f"harness failure on {r[2]}:\n{r[1]}")
+            rec, info, m = r
+            if rec is None:
+                oom += 1
+                recs = None
+                break
+            recs.append((rec, info, m))
+        if not recs:
+            continue
+        base = next((x for x in recs if x[2] == "collect" and x[0]["cfg"]["nexts"] == 0), None)
+        if base is None:
+            continue
+        others = []
+        for rec, info, m in recs:
+            if rec is base[0]:
+                continue
+            if m == "next":
+                others.append(samerun.other(rec, "same", lines=True, unmatched=False))
+            elif m == "fast_forward":
+                others.append(samerun.other(rec, "same", lines=False, unmatched=False))
+            else:
+                others.append(samerun.other(rec, "prefix", n=rec["cfg"]["nexts"]))
+        cases.append(samerun.case(idx, base[0], others))
+        infos[idx] = {"csvpath": base[1]["csvpath"], "file_records": base[1]["records"],
+                      "runs": [("collect(nexts=%d)" % r["cfg"]["nexts"]) if (m == "collect" and r["cfg"]["nexts"]) else m for r, _, m in recs]}
+        all_traces += [r for r, _, _ in recs]
+    res, verdicts = samerun.validate(cases)
+    rep.add_tlc("SameRun: next(), fast_forward() and collect(nexts=n) against collect()", res)
+    for c in cases:
+        v = verdicts[c["tid"]]
+        if v["verdict"] != "ok":
+            info = infos[c["tid"]]
+            which = info["runs"][v["at"]] if 0 < v["at"] < len(info["runs"]) else "?"
+            rep.violation({"kind": "not-the-same-run", "field": v["verdict"], "run_that_differs_from_collect": which, "at_call": v.get("expected"), **info})
+    # informational: the same traces against the run machine (what the run should be is judged by C01/C03/C04/C13)
+    rejected = 0
+    for b in range(0, len(all_traces), 4000):
+        r2, v2 = runtrace.validate(all_traces[b:b + 4000], dev=("AboveCellsAsText", "LtIsLe"))
+        rep.add_tlc(f"RunTrace (informational, deviations of C01's listed findings) batch {b // 4000}", r2)
+        rejected += sum(1 for t in all_traces[b:b + 4000] if v2[t["tid"]][0] != "ok")
+    rep.traces = len(all_traces)
+    rep.evaluations = len(all_traces)
+    for c in cases:
+        if len(c["base"]["events"]) > 0:
+            rep.nontrivial_case(infos[c["tid"]]["csvpath"] + json.dumps(infos[c["tid"]]["file_records"]))
+    for c in cases[:: max(1, len(cases) // 4)][:4]:
+        rep.sample({**infos[c["tid"]], "verdict": verdicts[c["tid"]]["verdict"]})
+    rep.extra.update({"cases": len(cases), "out_of_model_cases": oom, "traces_rejected_by_the_run_machine_not_judged_here": rejected,
+                      "function_groups": ["core", "control", "validity", "rewrite"]})
+    rep.rule = ("seeded random well-typed csvpaths (lib/gen.py; control, validity and line-rewriting functions) over typed random files; each case run "
+                "with collect(), next(), fast_forward() and collect(nexts=n) for n in 1..matches+1 (at most 6); TLC validates the relation of "
+                "SameRun.tla on the recorded executions. non-trivial = a distinct (csvpath, file) whose run considered at least one line.")
+    rep.assumptions = ["TLC 1.8; spec/SameRun.tla", "projection: lib/runner.snapshot after every _consider_line call, lib/runtrace._norm_vars",
+                       "_freeze_path after an abandoned generator is not compared"]
+    return rep.finish()
 
 
 def replay(path):
